@@ -302,6 +302,7 @@ inductive S where
 	}
 	inputLoop(c, vx, &sb)
 	savedWrites(c, &sb)
+	startupSkeleton(c, vx, &sb)
 	sb.WriteString("end VaxisModel.Gen.Modes\n")
 	c.Write("Modes.lean", sb.String())
 }
@@ -382,6 +383,49 @@ func savedWrites(c *ex.Ctx, sb *strings.Builder) {
 		fmt.Fprintf(sb, "  %s%s\n", r, sep)
 	}
 	sb.WriteString("]\n\n")
+}
+
+// startupSkeleton: the order in which `New` calls the lifecycle functions, whether openTty installs a new
+// writer, and how newWriter creates its buffer (the model's `fresh` flag stands for the 8192 NUL bytes
+// the buffer is created with). Missing pieces degrade to "unknown".
+func startupSkeleton(c *ex.Ctx, vx *ast.File, sb *strings.Builder) {
+	life := map[string]bool{"openTty": true, "sendQueries": true, "enterAltScreen": true, "exitAltScreen": true,
+		"enableModes": true, "disableModes": true, "Suspend": true, "Resume": true, "Close": true}
+	var calls []string
+	if fd := ex.FindFunc(vx, "", "New"); fd != nil {
+		ast.Inspect(fd.Body, func(n ast.Node) bool {
+			if ce, ok := n.(*ast.CallExpr); ok {
+				if se, ok := ce.Fun.(*ast.SelectorExpr); ok && c.Src(se.X) == "vx" && life[se.Sel.Name] {
+					calls = append(calls, ex.LeanStr(se.Sel.Name))
+				}
+			}
+			return true
+		})
+	}
+	installs := false
+	if fd := ex.FindFunc(vx, "Vaxis", "openTty"); fd != nil {
+		ast.Inspect(fd.Body, func(n ast.Node) bool {
+			if as, ok := n.(*ast.AssignStmt); ok && len(as.Lhs) == 1 && len(as.Rhs) == 1 &&
+				c.Src(as.Lhs[0]) == "vx.tw" && c.Src(as.Rhs[0]) == "newWriter(vx)" {
+				installs = true
+			}
+			return true
+		})
+	}
+	buf := "unknown"
+	if w := c.Parse("writer.go"); w != nil {
+		if fd := ex.FindFunc(w, "", "newWriter"); fd != nil {
+			ast.Inspect(fd.Body, func(n ast.Node) bool {
+				if kv, ok := n.(*ast.KeyValueExpr); ok && c.Src(kv.Key) == "buf" {
+					buf = c.Src(kv.Value)
+				}
+				return true
+			})
+		}
+	}
+	fmt.Fprintf(sb, "/-- Lifecycle functions called by `New`, in source order. -/\ndef newCalls : List String := [%s]\n\n", strings.Join(calls, ", "))
+	fmt.Fprintf(sb, "/-- openTty installs a new writer (`vx.tw = newWriter(vx)`). -/\ndef openTtyInstallsWriter : Bool := %v\n\n", installs)
+	fmt.Fprintf(sb, "/-- How newWriter creates its buffer. -/\ndef newWriterBuf : String := %s\n\n", ex.LeanStr(buf))
 }
 
 // inputLoop extracts the skeleton of the input goroutine started by openTty: the statements the
